@@ -129,9 +129,18 @@ def cube_rot():
 
 
 def rot3(lo_exp=-15, via=True):
-    vias = st.sampled_from(["rod", "rod", "quat"]) if via else st.just("rod")
+    vias = st.sampled_from(["rod", "rod", "quat", "conj"]) if via else st.just("rod")
     generic = st.fixed_dictionaries({"axis": direction3(), "angle": rot_angles(lo_exp), "via": vias})
-    return st.one_of(generic, generic, generic, generic, generic, generic, generic, cube_rot()) if via else generic
+    if not via:
+        return generic
+    noisy = st.fixed_dictionaries({"axis": direction3(), "angle": rot_angles(lo_exp), "via": vias, "noise": rounding_noise()})
+    return st.one_of(generic, generic, generic, generic, generic, generic, noisy, cube_rot())
+
+
+def rounding_noise():
+    """1-8 eps times a pattern in [-1,1]^9 (symmetric or general) added to a rotation matrix"""
+    return st.fixed_dictionaries({"k": st.sampled_from([1.0, 3.0, 8.0]), "sym": st.booleans(),
+                                  "pat": st.lists(st.one_of(fl(-1, 1), st.sampled_from([0.0, 1.0, -1.0])), min_size=9, max_size=9)})
 
 
 def pose3(t_hi=6, lo_exp=-15, tiny=False):
